@@ -121,6 +121,7 @@ type ParserRoles struct {
 	LHS               *ssa.Function // member-or-higher then call rest
 	CallRest          *ssa.Function // allocates CallExpression
 	MemberHi          *ssa.Function // primary then member rest
+	MergedLHS         bool          // LHS itself does primary, member rest and call rest (MemberHi == LHS)
 	MemberRest        *ssa.Function // allocates SelectorExpression
 	Primary           *ssa.Function
 	Paren             *ssa.Function // allocates ParenthesizedExpression
@@ -371,7 +372,31 @@ func (c *Ctx) Roles() *ParserRoles {
 	} else {
 		r.Missing = append(r.Missing, "left-hand-side parser")
 	}
-	if r.MemberHi != nil && r.MemberRest != nil {
+	if r.LHS != nil && r.MemberRest != nil && r.CallRest != nil {
+		// one function doing all three steps: primary, member rest, call rest
+		callsMemberRest := false
+		var third *ssa.Function
+		instrs(r.LHS, func(b *ssa.BasicBlock, i int, in ssa.Instruction) {
+			call, ok := in.(*ssa.Call)
+			if !ok {
+				return
+			}
+			cal := calleeOf(call)
+			if cal == r.MemberRest {
+				callsMemberRest = true
+			} else if cal != nil && cal != r.CallRest && c.inModule(cal) && cal.Signature.Results().Len() == 1 && typeName(cal.Signature.Results().At(0).Type()) == "Expression" {
+				third = cal
+			}
+		})
+		if callsMemberRest {
+			r.MemberHi = r.LHS
+			r.MergedLHS = true
+			r.Primary = third
+		}
+	}
+	if r.MergedLHS {
+		// Primary found above
+	} else if r.MemberHi != nil && r.MemberRest != nil {
 		instrs(r.MemberHi, func(b *ssa.BasicBlock, i int, in ssa.Instruction) {
 			call, ok := in.(*ssa.Call)
 			if !ok {
